@@ -358,8 +358,12 @@ func init() {
 // header CRC) instances for the encoder harness.
 func encJobs(tier string, meta map[string]int) []Job {
 	var js []Job
+	symoff := 0
+	if tier == "thorough" {
+		symoff = 1
+	}
 	add := func(ti, gmn, fi, fj, two, big, crc int) {
-		js = append(js, job("fit", "H05", "ti", ti, "gmn", gmn, "fi", fi, "fj", fj, "two", two, "big", big, "crc", crc))
+		js = append(js, job("fit", "H05", "ti", ti, "gmn", gmn, "fi", fi, "fj", fj, "two", two, "big", big, "crc", crc, "symoff", symoff))
 	}
 	slot := func(ti, gmn int) {
 		nf := meta[fmt.Sprintf("nf_%d", gmn)]
@@ -388,7 +392,7 @@ func encJobs(tier string, meta map[string]int) []Job {
 }
 
 func init() {
-	encBounds := "one message (or two, for the union-definition case) per File; per instance one struct field or one adjacent pair set to arbitrary non-invalid values (integers over their full width, valid coordinates, whole-second times in [epoch+1, epoch+2^32-2], ASCII strings of up to two characters that fit, arrays of 1-2 elements), or every field set at once to fixed values (structure of the full definition); instances: 17 file types x every hosted message (table read from the tree) x every field x both byte orders x headers with and without CRC"
+	encBounds := "one message (or two, for the union-definition case) per File; per instance one struct field or one adjacent pair set to arbitrary non-invalid values (integers over their full width, valid coordinates, whole-second times in [epoch+1, epoch+2^32-2], local times in 13 representative zone offsets (thorough: any offset within +-14 h), ASCII strings of up to two characters that fit, arrays of 1-2 elements), or every field set at once to fixed values (structure of the full definition); instances: 17 file types x every hosted message (table read from the tree) x every field x both byte orders x headers with and without CRC"
 	reg(&CheckDef{
 		ID:        "C05",
 		Meta:      "fit.Hmeta",
@@ -627,15 +631,13 @@ func init() {
 		ID: "C16",
 		Jobs: func(tier string, meta map[string]int) []Job {
 			var js []Job
-			for _, k := range kindSeqs(3) {
-				js = append(js, job("fit", "H16a", "n", 3, "kinds", k, "crc", k%2, "chunk", []int{0, 1, 3}[k%3], "cut", 0))
-			}
 			nc := 2
 			if tier == "thorough" {
 				nc = 3
 			}
 			for _, k := range kindSeqs(nc) {
-				js = append(js, job("fit", "H16a", "n", nc, "kinds", k, "crc", k%2, "chunk", []int{0, 1, 3}[k%3], "cut", 1))
+				js = append(js, job("fit", "H16a", "n", nc, "kinds", k, "crc", k%2, "chunk", []int{0, 1, 3}[k%3], "cut", 0))
+				js = append(js, job("fit", "H16a", "n", nc, "kinds", k, "crc", (k+1)%2, "chunk", []int{0, 1, 3}[(k+1)%3], "cut", 1))
 			}
 			js = append(js, job("fit", "H16b", "n", 1), job("fit", "H16b", "n", 2))
 			if tier == "thorough" {
@@ -645,8 +647,8 @@ func init() {
 		},
 		MustReach: []string{"C16.options.same-error", "C16.options.same-bytes-consumed", "C16.options.same-messages", "C16.fields.exact", "C16.messages.exact", "C16.fields.absent-without-option", "C16.fields.sorted", "C16.messages.sorted", "C16.fields.counts-preserved"},
 		Bounds: map[string]interface{}{
-			"quick":    streamModel + "; n = 3 uncut, n = 2 cut at every offset after the file_id record; all 8 option combinations (symbolic); sortedness of the exported lists: up to 2 arbitrary keys in every map iteration order",
-			"thorough": "as quick with n = 3 cut streams and 3 keys",
+			"quick":    streamModel + "; n = 2, uncut and cut at every offset after the file_id record; all 8 option combinations (symbolic); sortedness of the exported lists: up to 2 arbitrary keys in every map iteration order",
+			"thorough": "as quick with n = 3 and 3 keys",
 		},
 		Outside:     []string{"streams outside the model; more than one distinct unknown message number / unlisted field number per stream (the model has one of each, with arbitrary values)"},
 		Assumptions: append([]string{"Logger = harness no-op type; map iteration order is a symbolic permutation in H16b; sort.Sort executed from the standard library's SSA"}, commonAssumptions...),
